@@ -7,6 +7,10 @@ ids = sorted(os.listdir(os.path.join(V, 'seeded')))
 if sys.argv[1:]:
     ids = [i for i in ids if any(a in i for a in sys.argv[1:])]
 assert subprocess.run(['git', '-C', '/repo', 'status', '--porcelain', '--untracked-files=no'], capture_output=True, text=True).stdout.strip() == '', '/repo not clean'
+import shutil, tempfile
+# evidence written while a seeded change is applied describes a mutated tree: keep the committed evidence aside and put it back
+EVB = tempfile.mkdtemp(prefix='gv_evidence_')
+shutil.copytree(os.path.join(V, 'evidence'), os.path.join(EVB, 'evidence'))
 for sid in ids:
     d = os.path.join(V, 'seeded', sid)
     m = json.load(open(os.path.join(d, 'meta.json')))
@@ -28,6 +32,7 @@ for sid in ids:
         print('%-10s %-4s %-34s %s' % (sid, prop, verdict, lines[0] if lines else ''), flush=True)
     finally:
         subprocess.run(['git', '-C', '/repo', 'checkout', '--', '.'], capture_output=True)
+shutil.rmtree(os.path.join(V, 'evidence')); shutil.copytree(os.path.join(EVB, 'evidence'), os.path.join(V, 'evidence')); shutil.rmtree(EVB)
 # replays produced by these runs belong to mutated trees: remove them
 import glob
 for f in glob.glob(os.path.join(V, 'replays', '*.json')):
